@@ -261,7 +261,8 @@ enum Act {
     Price(usize),
     /// set the caps of market i: index into CAPS
     Caps(usize, usize),
-    /// fabricate open interest in market i (long, short) so that pending pnl depends on the index price
+    /// fabricate open interest in market i % 2 so that pending pnl depends on the index price; i >= 2: so much that
+    /// the traders' pending profit lies between the pnl caps applied after withdrawals and after deposits
     OpenInterest(usize),
 }
 
@@ -705,17 +706,24 @@ impl Machine for Hist {
                 out.label = if r.is_ok() { "ok" } else { "err" };
             }
             Act::OpenInterest(mi) => {
-                use gmsol_model::{BaseMarketMut as _, PerpMarketMut as _, Pool as _};
-                let m = self.markets()[mi].clone();
-                // a long position of 1 index token opened at 10 USD and a short one of 0.5 opened at 14 USD
+                use gmsol_model::{PerpMarketMut as _, Pool as _};
+                let (m, large) = (self.markets()[mi % 2].clone(), mi >= 2);
                 w.edit_market(&mut n.db, &m, |rm| {
                     let unit = 10i128.pow(20);
-                    rm.open_interest_pool_mut(true).unwrap().apply_delta_to_long_amount(&(10 * unit)).unwrap();
-                    rm.open_interest_in_tokens_pool_mut(true).unwrap().apply_delta_to_long_amount(&1_000_000).unwrap();
-                    rm.open_interest_pool_mut(false).unwrap().apply_delta_to_short_amount(&(7 * unit)).unwrap();
-                    rm.open_interest_in_tokens_pool_mut(false).unwrap().apply_delta_to_short_amount(&500_000).unwrap();
+                    if large {
+                        // long positions of 80 index tokens opened at 6 USD: at 12 USD their pending profit is 480 USD, about 40 % of the
+                        // long side of the pool, i.e. between the pnl caps used after withdrawals and after deposits
+                        rm.open_interest_pool_mut(true).unwrap().apply_delta_to_long_amount(&(480 * unit)).unwrap();
+                        rm.open_interest_in_tokens_pool_mut(true).unwrap().apply_delta_to_long_amount(&80_000_000).unwrap();
+                    } else {
+                        // a long position of 1 index token opened at 10 USD and a short one of 0.5 opened at 14 USD
+                        rm.open_interest_pool_mut(true).unwrap().apply_delta_to_long_amount(&(10 * unit)).unwrap();
+                        rm.open_interest_in_tokens_pool_mut(true).unwrap().apply_delta_to_long_amount(&1_000_000).unwrap();
+                        rm.open_interest_pool_mut(false).unwrap().apply_delta_to_short_amount(&(7 * unit)).unwrap();
+                        rm.open_interest_in_tokens_pool_mut(false).unwrap().apply_delta_to_short_amount(&500_000).unwrap();
+                    }
                 });
-                out.label = "ok";
+                out.label = if large { "large_pnl" } else { "ok" };
             }
         }
         if self.probe_round_trips && !out.prune {
@@ -741,13 +749,18 @@ fn pricing_world() -> (Db, G) {
     for m in [&w.m1, &w.m2] {
         let accounts = gmsol_store::accounts::UpdateGlvMarketConfig { authority: w.keeper, store: w.store, glv, market_token: m.market_token };
         process(&mut db, &ix(w.pid, accounts, gmsol_store::instruction::ToggleGlvMarketFlag { flag: "is_deposit_allowed".into(), enable: true }), &[w.keeper]).unwrap_or_else(|e| panic!("c45 toggle flag: {e:?}"));
+        // as in GMX deployments, the pnl cap applied to withdrawals is tighter than the one applied to deposits
+        for key in ["max_pnl_factor_for_long_withdrawal", "max_pnl_factor_for_short_withdrawal"] {
+            let accounts = gmsol_store::accounts::UpdateMarketConfig { authority: w.keeper, store: w.store, market: m.market };
+            process(&mut db, &ix(w.pid, accounts, gmsol_store::instruction::UpdateMarketConfig { key: key.into(), value: 30_000_000_000_000_000_000 }), &[w.keeper]).unwrap_or_else(|e| panic!("c45 config {key}: {e:?}"));
+        }
     }
     (db, G { w, glv, glv_token, all })
 }
 
 pub fn run(cli: &Cli) -> Report {
     let mut rep = Report::new(cli, "model_checking");
-    rep.rule("(1) composition, E1 through the real instructions: initialize_glv with every ordered selection (with repetition) of 1..=3 markets out of six (A|A/B, B|A/B, C|B/C, C|A/C, B|B/A, C|A/B) and then insert_glv_market of every market, both into the fresh GLV and chained: accepted exactly when the markets are distinct and carry the GLV's long and short token; after every accepted instruction every stored market token is resolved to its market account and its tokens compared with the GLV's. (2) caps, E1 on the real Glv struct: validate_market_token_balance over boundary values of max_amount x max_value x new balance x pool value x supply against the big-integer definition (0 = unlimited; value = floor(balance * pool value / supply); a negative pool value cannot satisfy a value cap). (3) pricing, E3 breadth first: GLV deposits of market tokens / long / short / mixed into either market, withdrawals of all or half of the owner's GLV tokens through either market, four price settings (two with min != max), four cap settings per market and fabricated open interest, every one executed by the real create/execute/close instructions; after every deposit: recorded balance = vault movement, the caps hold on the state left behind (pool value maximised), minted GLV tokens = supply * received value (minimised) / vault value (maximised); after every withdrawal: market tokens paid = the minimised vault share converted at the maximised pool value; vaults back the recorded balances; in every reached state ten deposit-then-withdraw round trips must not return more market tokens than entered the vault. Non-trivial probe = a round trip whose deposit and withdrawal both completed");
+    rep.rule("(1) composition, E1 through the real instructions: initialize_glv with every ordered selection (with repetition) of 1..=3 markets out of six (A|A/B, B|A/B, C|B/C, C|A/C, B|B/A, C|A/B) and then insert_glv_market of every market, both into the fresh GLV and chained: accepted exactly when the markets are distinct and carry the GLV's long and short token; after every accepted instruction every stored market token is resolved to its market account and its tokens compared with the GLV's. (2) caps, E1 on the real Glv struct: validate_market_token_balance over boundary values of max_amount x max_value x new balance x pool value x supply against the big-integer definition (0 = unlimited; value = floor(balance * pool value / supply); a negative pool value cannot satisfy a value cap). (3) pricing, E3 breadth first: GLV deposits of market tokens / long / short / mixed into either market, withdrawals of all or half of the owner's GLV tokens through either market, four price settings (two with min != max), four cap settings per market and fabricated open interest (small, and large enough for the traders' pending profit to lie between the withdrawal and deposit pnl caps), every one executed by the real create/execute/close instructions; after every deposit: recorded balance = vault movement, the caps hold on the state left behind (pool value maximised), minted GLV tokens = supply * received value (minimised) / vault value (maximised); after every withdrawal: market tokens paid = the minimised vault share converted at the maximised pool value; vaults back the recorded balances; in every reached state ten deposit-then-withdraw round trips must not return more market tokens than entered the vault. Non-trivial probe = a round trip whose deposit and withdrawal both completed");
     rep.assume("svm-lite runtime trusted; pool values of the reference come from the SDK market model on the stored account bytes (validated against the program by C40), the GLV-level composition (which balance, which pnl factor, which side is maximised, the conversions) is the reference's own big-integer arithmetic; GLV shifts and swap paths inside GLV actions are not explored; clock fixed, so funding/borrowing accrual between steps is zero");
     let th = cli.tier.thorough();
     if let Some(rv) = &cli.replay {
@@ -798,7 +811,7 @@ fn actions(th: bool) -> Vec<Act> {
             }
         }
     }
-    acts.push(Act::OpenInterest(0));
+    acts.extend([Act::OpenInterest(0), Act::OpenInterest(2)]);
     for k in 0..PRICES.len() {
         acts.push(Act::Price(k));
     }
